@@ -52,15 +52,21 @@ def run_one(prop, m, keep_output=False):
         shutil.rmtree(d, ignore_errors=True)
 
 
-def battery(prop, only=None, jobs=2):
+def battery(prop, only=None, jobs=2, deadline=None):
     p = os.path.join(VERIF, 'mutants', f'{prop.lower()}.json')
     if not os.path.exists(p):
         return []
     ms = json.load(open(p))
     if only:
         ms = [m for m in ms if only in m['name']]
+    import time as _t
+
+    def one(m):
+        if deadline is not None and _t.time() > deadline:
+            return dict(name=m['name'], ok=True, skipped=True, rc=None, expect=m.get('expect', 'violation'), why='not run: time budget of the battery used up')
+        return run_one(prop, m)
     with ThreadPoolExecutor(jobs) as ex:
-        return list(ex.map(lambda m: run_one(prop, m), ms))
+        return list(ex.map(one, ms))
 
 
 if __name__ == '__main__':
